@@ -80,3 +80,13 @@ def three_columns(xs):
     non-constant nuisance column (aggregation over ALL columns matters; a detector using only some columns differs)."""
     n = len(xs)
     return [[float(xs[i]), float(xs[n - 1 - i]) * 0.5 + 0.25 * (i % 2), 1.0 + 0.5 * ((i * 3) % 4)] for i in range(n)]
+
+
+def result_survives(scorer, cuts_a, cuts_b):
+    """The array returned by evaluate(cuts_a) must still hold the same values after a later evaluate(cuts_b) on the same
+    fitted scorer (a returned view of an internal, reused buffer would be overwritten).  Returns (ok, before, after)."""
+    r1 = scorer.evaluate(np.array(cuts_a))
+    snap = np.array(r1, copy=True)
+    scorer.evaluate(np.array(cuts_b))
+    ok = r1.shape == snap.shape and bool(np.array_equal(r1, snap, equal_nan=True))
+    return ok, snap, np.array(r1, copy=True)
